@@ -139,7 +139,7 @@ Definition pristine (h : heap) (l : list event) (o : nat) : Prop :=
             geno (ind_at h o) = geno (ind_at h0 p) /\ fit_of h o = fit_of h0 p.
 
 Definition okstate (h : heap) (l : list event) (o : nat) : Prop :=
-  pristine h l o \/ fit_of h o = None.
+  pristine h l o \/ (varied l o /\ fit_of h o = None).
 
 Record ginv (h : heap) (l : list event) (L : list nat) : Prop := mkginv {
   gi_shape : shape h;
@@ -176,9 +176,9 @@ Qed.
 Lemma okstate_transport (h h' : heap) l o :
   ind_at h' o = ind_at h o -> fit_of h' o = fit_of h o -> okstate h l o -> okstate h' l o.
 Proof.
-  intros Ei Ef [[Hv (p & Hp & Hc & Hg & Hff)]|Hnone].
+  intros Ei Ef [[Hv (p & Hp & Hc & Hg & Hff)]|[Hvar Hnone]].
   - left. split; auto. exists p. rewrite Ei, Ef. auto.
-  - right. congruence.
+  - right. split; [exact Hvar|congruence].
 Qed.
 
 Lemma ginv_alloc (h : heap) l L g f : ginv h l L -> ginv (fst (alloc h g f)) l L.
@@ -204,14 +204,15 @@ Proof.
     eapply okstate_transport; eauto.
 Qed.
 
-Lemma ginv_del (h : heap) l L a : ginv h l L -> ni h0 <= a < ni h -> ginv (del_fit h a) l L.
+Lemma ginv_del (h : heap) l L a :
+  ginv h l L -> ni h0 <= a < ni h -> ~ In a L -> ginv (del_fit h a) l L.
 Proof.
-  intros [Hs Hl Hf Hn Hst] Ha. constructor; auto.
+  intros [Hs Hl Hf Hn Hst] Ha Hna. constructor; auto.
   - now apply shape_del.
-  - rewrite Forall_forall in *. intros o Ho.
-    destruct (Nat.eq_dec (fitref (ind_at h o)) (fitref (ind_at h a))) as [E|Hne].
-    + right. unfold fit_of, del_fit; cbn. rewrite E. now rewrite upd_same.
-    + eapply okstate_transport; [| |apply Hst, Ho]; [reflexivity|now apply del_fit_other].
+  - rewrite Forall_forall in *. intros o Ho. specialize (Hf o Ho). cbn in Hf.
+    assert (Hne : fitref (ind_at h o) <> fitref (ind_at h a)).
+    { intro E. apply Hna. rewrite <- (sh_new_inj _ Hs o a Hf Ha E). exact Ho. }
+    eapply okstate_transport; [| |apply Hst, Ho]; [reflexivity|now apply del_fit_other].
 Qed.
 
 Lemma ginv_log (h : heap) l L e :
@@ -220,7 +221,8 @@ Proof.
   intros [Hs Hl Hf Hn Hst] He. constructor; auto.
   - intros e' o [<-|Hin] Hi; [apply He, Hi|eapply Hl; eauto].
   - rewrite Forall_forall in *. intros o Ho.
-    destruct (Hst o Ho) as [[Hv (p & Hp & Hc & Hg & Hff)]|Hnone]; [left|now right].
+    destruct (Hst o Ho) as [[Hv (p & Hp & Hc & Hg & Hff)]|[(e0 & He0 & Hi0) Hnone]];
+      [left|right; split; [exists e0; split; [now right|exact Hi0]|exact Hnone]].
     split.
     + intros (e' & [<-|Hin] & Hi); [exact (proj2 (He _ Hi) Ho)|apply Hv; exists e'; auto].
     + exists p. cbn. auto.
@@ -364,14 +366,14 @@ Qed.
 
 (* del x.fitness.values, then x becomes live (with an empty fitness) *)
 Lemma step_del_add (s : st) x M :
-  ginv (hp s) (lg s) M -> ni h0 <= x < ni (hp s) -> ~ In x M ->
+  ginv (hp s) (lg s) M -> ni h0 <= x < ni (hp s) -> ~ In x M -> varied (lg s) x ->
   ginv (hp (do_del s x)) (lg (do_del s x)) (x :: M).
 Proof.
-  intros Hg Hx Hnx. cbn. apply ginv_add.
+  intros Hg Hx Hnx Hv. cbn. apply ginv_add.
   - now apply ginv_del.
   - exact Hx.
   - exact Hnx.
-  - right. apply del_fit_self.
+  - right. split; [exact Hv|apply del_fit_self].
 Qed.
 
 Lemma perm_move {A} (x : A) l1 l2 : Permutation (x :: l1 ++ l2) (l1 ++ x :: l2).
@@ -427,8 +429,8 @@ Proof.
     pose proof (step_clone _ _ _ _ _ Hg2 (nth_error_In _ _ E1) Ec1) as Hg3.
     pose proof (step_clone _ _ _ _ _ Hg3 (nth_error_In _ _ E2) Ec2) as Hg4.
     assert (Hg4' : ginv (hp s4) (lg s4) (c1 :: c2 :: L)) by (eapply ginv_perm; [apply perm_swap|exact Hg4]).
-    destruct (step_mate _ _ _ _ _ _ _ Hg4' Em) as (Hg5 & Hr1 & _ & Hn1 & _).
-    pose proof (step_del_add _ _ _ Hg5 Hr1 Hn1) as Hg6.
+    destruct (step_mate _ _ _ _ _ _ _ Hg4' Em) as (Hg5 & Hr1 & _ & Hn1 & _ & Hv1 & _).
+    pose proof (step_del_add _ _ _ Hg5 Hr1 Hn1 Hv1) as Hg6.
     split; [apply (gi_shape _ _ _ Hg6)|]. intros o E'; inversion E'; subst. exact Hg6.
   - destruct (Nat.eqb (length pop) 0); [apply Hfail; exact Eh|].
     destruct (dr s1) as [|[x|n i j|n i] rest]; try (apply Hfail; exact Eh).
@@ -441,8 +443,8 @@ Proof.
     destruct (ltb u (add cxpb mutpb)).
     + destruct (do_mut mut_o s3 c) as [s4 r] eqn:Em.
       intro E; inversion E; subst; clear E.
-      destruct (step_mut _ _ _ _ _ Hg3 Em) as (Hg4 & Hr & Hn & _).
-      pose proof (step_del_add _ _ _ Hg4 Hr Hn) as Hg5.
+      destruct (step_mut _ _ _ _ _ Hg3 Em) as (Hg4 & Hr & Hn & Hv).
+      pose proof (step_del_add _ _ _ Hg4 Hr Hn Hv) as Hg5.
       split; [apply (gi_shape _ _ _ Hg5)|]. intros o E'; inversion E'; subst. exact Hg5.
     + intro E; inversion E; subst; clear E.
       split; [apply (gi_shape _ _ _ Hg3)|]. intros o E'; inversion E'; subst. exact Hg3.
@@ -507,14 +509,21 @@ Qed.
 Lemma ginv_varied_invalid (h : heap) l off : ginv h l off -> varied_invalid h l off.
 Proof.
   intros Hg o Ho Hv. pose proof (gi_state _ _ _ Hg) as Hst. rewrite Forall_forall in Hst.
-  destruct (Hst o Ho) as [[Hnv _]|Hn]; [contradiction|exact Hn].
+  destruct (Hst o Ho) as [[Hnv _]|[_ Hn]]; [contradiction|exact Hn].
 Qed.
 
 Lemma ginv_valid_parent (h : heap) l off : ginv h l off -> valid_is_parent_copy h0 pop h l off.
 Proof.
   intros Hg o f Ho Hf. pose proof (gi_state _ _ _ Hg) as Hst. rewrite Forall_forall in Hst.
-  destruct (Hst o Ho) as [[Hnv (p & Hp & Hc & Hge & Hfi)]|Hn]; [|congruence].
+  destruct (Hst o Ho) as [[Hnv (p & Hp & Hc & Hge & Hfi)]|[_ Hn]]; [|congruence].
   split; auto. exists p. repeat split; auto. congruence.
+Qed.
+
+Lemma ginv_unvaried (h : heap) l off o :
+  ginv h l off -> In o off -> ~ varied l o -> pristine h l o.
+Proof.
+  intros Hg Ho Hv. pose proof (gi_state _ _ _ Hg) as Hst. rewrite Forall_forall in Hst.
+  destruct (Hst o Ho) as [Hp|[Hvar _]]; [exact Hp|contradiction].
 Qed.
 
 (* ------------------------------------------------------------------ varAnd, second part *)
@@ -536,7 +545,7 @@ Proof.
     destruct (ltb u cxpb).
     + destruct (do_mate mate_o s1 a b) as [s2 [r1 r2]] eqn:Em.
       rewrite <- Eh, <- El in Hg. cbn [app] in Hg.
-      destruct (step_mate _ _ _ _ _ _ _ Hg Em) as (Hg2 & Hr1 & Hr2 & Hn1 & Hn2 & _ & _ & Hd).
+      destruct (step_mate _ _ _ _ _ _ _ Hg Em) as (Hg2 & Hr1 & Hr2 & Hn1 & Hn2 & Hv1 & Hv2 & Hd).
       specialize (Hd (mate_distinct _ _ _)).
       assert (Hg3 : ginv (hp (do_del s2 r1)) (lg (do_del s2 r1)) (r1 :: r ++ pre))
         by (apply step_del_add; auto).
@@ -575,7 +584,7 @@ Proof.
     destruct (ltb u mutpb).
     + destruct (do_mut mut_o s1 a) as [s2 r1] eqn:Em.
       rewrite <- Eh, <- El in Hg. cbn [app] in Hg.
-      destruct (step_mut _ _ _ _ _ Hg Em) as (Hg2 & Hr1 & Hn1 & _).
+      destruct (step_mut _ _ _ _ _ Hg Em) as (Hg2 & Hr1 & Hn1 & Hv1).
       assert (Hg3 : ginv (hp (do_del s2 r1)) (lg (do_del s2 r1)) (r1 :: r ++ pre))
         by (apply step_del_add; auto).
       assert (Hg5 : ginv (hp (do_del s2 r1)) (lg (do_del s2 r1)) (r ++ r1 :: pre)).
